@@ -763,6 +763,37 @@ func (a *Analysis) IdxGuard() *report.RuleResult {
 								l := lexpr{T: map[string]int{pr.term(as.Lhs[0]): 1}}
 								lf = append(lf, fact{E: r.plus(l, -1)})
 							}
+							// for i := a; …; i++ with i changed by nothing else: i >= a is invariant for an increasing counter
+							if post, ok := x.Post.(*ast.IncDecStmt); ok && post.Tok == token.INC && pr.term(post.X) == pr.term(as.Lhs[0]) {
+								t := pr.term(as.Lhs[0])
+								other := false
+								ast.Inspect(x.Body, func(n ast.Node) bool {
+									switch y := n.(type) {
+									case *ast.AssignStmt:
+										for _, l := range y.Lhs {
+											if pr.term(l) == t {
+												other = true
+											}
+										}
+										for tt := range r.T {
+											for _, l := range y.Lhs {
+												if pr.term(l) == tt {
+													other = true
+												}
+											}
+										}
+									case *ast.IncDecStmt:
+										if pr.term(y.X) == t {
+											other = true
+										}
+									}
+									return true
+								})
+								if !other {
+									l := lexpr{T: map[string]int{t: 1}}
+									lf = append(lf, fact{E: l.plus(r, -1)})
+								}
+							}
 						}
 					}
 					// lower bounds of variables that the loop only increments stay valid
@@ -801,7 +832,38 @@ func (a *Analysis) IdxGuard() *report.RuleResult {
 					}
 					walk(x.Body.List, lf)
 				case *ast.RangeStmt:
-					walk(x.Body.List, append([]fact{}, base...))
+					rf := append([]fact{}, base...)
+					// for k := range xs: 0 <= k < len(xs) while the body assigns neither
+					if x.Key != nil {
+						if kid, ok := x.Key.(*ast.Ident); ok && kid.Name != "_" {
+							if t := info.TypeOf(x.X); t != nil {
+								switch t.Underlying().(type) {
+								case *types.Slice, *types.Array, *types.Basic:
+									k, xs := kid.Name, pr.term(x.X)
+									touched := false
+									ast.Inspect(x.Body, func(n ast.Node) bool {
+										switch y := n.(type) {
+										case *ast.AssignStmt:
+											for _, l := range y.Lhs {
+												if lt := pr.term(l); lt == k || lt == xs {
+													touched = true
+												}
+											}
+										case *ast.IncDecStmt:
+											if pr.term(y.X) == k {
+												touched = true
+											}
+										}
+										return true
+									})
+									if !touched {
+										rf = append(rf, mk(map[string]int{k: 1}, 0), mk(map[string]int{"len(" + xs + ")": 1, k: -1}, -1))
+									}
+								}
+							}
+						}
+					}
+					walk(x.Body.List, rf)
 				case *ast.SwitchStmt:
 					for _, c := range x.Body.List {
 						cc := c.(*ast.CaseClause)
